@@ -22,7 +22,8 @@ WALLET_CFGS = {
 # design exploration on the specification alone (thorough tier): the two deviations suspected in the code
 DESIGN_CFGS = [("cfg/WalletLedger.restore0.cfg", True), ("cfg/WalletLedger.skipvotes.cfg", False)]
 
-COUNTERS = ("nudged", "skipped_shadowed", "reorg_cases", "utxos_compared", "usable_checked", "usable_by_keeper", "probe_spends", "probe_blocks", "retried")
+COUNTERS = ("nudged", "skipped_shadowed", "reorg_cases", "utxos_compared", "usable_checked", "usable_by_keeper", "unconfirmed_views", "unconfirmed_offered",
+            "unconfirmed_offered_confirmed_judged", "probe_spends", "probe_blocks", "retried")
 
 
 def replay_one(ctx, b):
